@@ -25,6 +25,17 @@ func Transpile(elkRegex string, flags bitfield.BitField8) (string, diagnostic.Di
 	if t.Errors != nil {
 		return "", t.Errors
 	}
+
+	// flags of the literal that Go understands (i, m, s, U) apply to the whole pattern
+	var goFlags strings.Builder
+	for _, fl := range flag.Flags {
+		if flags.HasFlag(fl) && flag.IsSupportedByGo(fl) {
+			goFlags.WriteRune(flag.ToChar(fl))
+		}
+	}
+	if goFlags.Len() > 0 {
+		return "(?" + goFlags.String() + ")" + t.Buffer.String(), nil
+	}
 	return t.Buffer.String(), nil
 }
 
